@@ -83,6 +83,15 @@ fn main() {
     // Panics of the subject are caught per case where the property is about totality; anything
     // else that panics is the harness itself -> machinery exit code.
     watch::start(prop, std::time::Duration::from_secs(if prop == "C02" { 20 } else if tier == Tier::Thorough { 300 } else { 90 }), matches!(prop, "C02" | "C03"));
+    // scratch files of earlier runs (fixtures written per case) that were left behind: drop what is older than an hour
+    if let Ok(rd) = std::fs::read_dir("/verif/target/tmp") {
+        for e in rd.flatten() {
+            let old = e.metadata().ok().and_then(|m| m.modified().ok()).and_then(|t| t.elapsed().ok()).map(|d| d.as_secs() > 3600).unwrap_or(false);
+            if old {
+                let _ = std::fs::remove_file(e.path());
+            }
+        }
+    }
     let ctx = Ctx { tier, replay };
     let level = checks::level_of(prop);
     let mut rep = Report::new(prop, tier, level);
